@@ -32,6 +32,23 @@ PROPS = {
         "text": "see Gonuts/Props/C19.lean",
         "assumptions": COMMON_ASSUME,
     },
+    "C08": {
+        "claimed": True,
+        "title": "Unlinkability: the mint never receives a blinding factor",
+        "lean": ["Gonuts.Props.C08", "Gonuts.Tie.WalletWire"],
+        "streams": ["wallet-wire"],
+        "thorough_shards": {"wallet-wire": 4},
+        "level": "proof",
+        "technique": "Lean 4 theorems over a tagged-tree model of every request body a wallet builds (Model.WalletWire: leaves tagged public / number / point / DLEQ transcript / secret in clear / blinding factor; request builders mirroring the composite literals of wallet.go and restore.go and the JSON tags of cashu.go; every operation path with selection, split, token, mint answers and errors as universally quantified oracles); tied to /repo statically (Tie.WalletWire: JSON tags incl. omitempty and pointer types, the rendered field expressions of every request literal, call skeletons of every path, by rfl) and dynamically (stream wallet-wire: real wallets and real mints over an in-process transport; a model-free byte-level monitor searches every request for every blinding factor / DLEQ transcript / output secret the harness learned independently (storage proxy, own NUT-13 derivation from the mnemonic, values returned to the caller) in every encoding, and the shape of every request body is compared with the model's tagged tree through the Lean driver)",
+        "design_ref": "DESIGN.md §4.5, §5 C08, §6 F5",
+        "text": "PROVED (Gonuts/Props/C08.lean) on a tagged-tree model of every request body: for EVERY wallet state (stored and pending proofs with and without DLEQ, with and without r; unbounded lists), every operation path of the quantifier (RequestMint, MintTokens, Send with exact selection and through swapToSend, SendToPubkey / HTLCLockedProofs, Receive kept / swapped to the trusted mint / P2PK with and without SIG_ALL, ReceiveHTLC, Melt with NUT-08 blank outputs and a preceding state check, MintSwap, ReclaimUnspentProofs, RemoveSpentProofs, Restore, quote requests), every selection, split, token, every answer of the mint (signatures with and without DLEQ, wrong lengths, invalid signatures, states, errors) and every history of such operations: no request contains a leaf tagged blindingFactor, and a secret in clear occurs only at inputs[].secret and only as the secret of a proof that is an input of that very request (C08_no_secret_leaf, C08_no_secret_leaf_hist, C08_no_secret_leaf_unfolded); the mint's own DLEQ transcript (e, s), which identifies the blind signature just as well, never travels either (C08_no_dleq_transcript); the copies sent differ from the wallet's proofs in the DLEQ only (C08_only_dleq_removed). EXACT conditions show the fix is necessary at each site: a swap / melt request is secure iff none of the proofs passed as Inputs carries r, and transcript-free iff none has a DLEQ (C08_swap_exact, C08_melt_exact, C08_swap_transcript_exact). Blinding factors do leave the wallet in values for its CALLER: Send returns the stored proofs untouched (C08_send_returns_stored), a token built with includeDLEQ=true shows r of every proof that has one (C08_token_includes_r), with includeDLEQ=false none (C08_token_strips_r); NewTokenV4 likewise (examples). FOUND AND FIXED (F5, /repo e3b61b4): constructProofs stores DLEQ{E,S,R} on every proof, bbolt round-trips it, tokens deliver dleq{e,s,r}, and swap(), swapToSend, Melt and swapProofs put those proofs as they were into PostSwapRequest.Inputs / PostMeltBolt11Request.Inputs, whose JSON encoding emits `dleq` whenever the pointer is set: the mint received r (and its own e, s) of every proof spent. Reproduced first by the byte-level monitor at all four sites (findings/F5-*.json; also from wallets WITHOUT any stored DLEQ: Melt / MintSwap through swapToSend and the SIG_ALL swap-to-trusted spend proofs fresh from constructProofs), with the model stating the full property as a refuted def plus a partial theorem; after the fix the model follows the fixed code, the full statement is the theorem and the former witnesses are regression examples (Lean) and scripted regression histories (stream) that must still reach each site with DLEQ-carrying inputs. ReclaimUnspentProofs, MintTokens, RemoveSpentProofs and Restore were safe before the fix (inputs rebuilt without DLEQ / blinded messages / Ys / B_ only).",
+        "note": "Unlinkability in the cryptographic sense (that B_ and C reveal nothing about each other) is C10's algebra plus the blinding assumption; C08 is the information-flow part: which values travel. Timing / network-level correlation (same connection, request order, amounts) is out of scope. MultiMintPayment (NUT-15) is not in the property's quantifier; it reuses Melt. The HTLC preimage and P2PK signatures travel inside `witness` by design (public to the mint once spent).",
+        "assumptions": COMMON_ASSUME + [
+            "a blinded message B_ = hash_to_curve(secret) + r*G is modelled as an opaque point leaf: that it hides secret and r is the blinding assumption of BDHKE (C10), not proved here",
+            "public text (quote ids, keyset ids, invoices, NUT-20 public keys and signatures, P2PK/HTLC witnesses) is modelled as an opaque public leaf; the byte-level monitor searches it like everything else",
+            "GET requests carry no body; their URLs (mint URL, quote id, keyset id) are searched by the monitor and are not part of the tree model",
+        ],
+    },
     "C18": {
         "claimed": True,
         "title": "Send hands over exactly the requested amount, fees included when asked",
@@ -49,11 +66,64 @@ PROPS = {
             "no-wrap hypotheses of the N-valued statements: holdings + fee of spending them all < 2^64, sum of ppk + 999 < 2^64, amount + fees < 2^64 (the uint64-level statements need none)",
         ],
     },
+    "C20": {
+        "claimed": True,
+        "title": "HTTP/JSON surface is a faithful, spec-shaped transport of the mint's decisions",
+        "lean": ["Gonuts.Props.C20", "Gonuts.Tie.Wire"],
+        "streams": ["wire"],
+        "thorough_shards": {"wire": 3},
+        "level": "proof",
+        "technique": "Lean 4 theorems over Model.Wire — mint/server.go written as a pure function handleX : WSess -> Request -> WSess x Response x Info "
+                     "(mux routing incl. 301/404/405/OPTIONS, {method} check, decodeJsonReqBody classes, the NUT-19 cache as an association list with the "
+                     "code's Get/Set/DeleteExpired semantics, per-handler error mapping, writeErr, one JSON tree per response type) composed with "
+                     "Model.Mint.applyOp; tied to /repo statically (Tie.Wire: route table, per-handler `cashuErr.Code ==` tests and writeErr arguments, decode "
+                     "switch, go/printer text of Cache.Set/Get/DeleteExpired, writeErr, setupHeaders, Start, PublicKeys.MarshalJSON, cache key/TTL argument "
+                     "expressions, JSON tags of every request/response struct, enum switch tables, error table, NUT-19 advertisement; by rfl/decide) and "
+                     "differentially (stream wire: hand-built JSON text through MintServer's http.Handler in-process, generic parsing, request-by-request "
+                     "comparison of status, ordered body tree, storage trace, Lightning calls and cache size with the Lean driver; the real mint.Cache object "
+                     "against the model's cache functions incl. the 10000/10001 boundary) plus model-free monitors",
+        "design_ref": "DESIGN.md §4.1 (last paragraph), §5 C20",
+        "text": "PROVED for all sessions, requests, cache contents, clock values and strings: enum_roundtrip (nut04/05/07 String/StringToState tables of the source "
+                "round-trip and yield the NUT strings; exception stated: a mint quote can show PENDING, which NUT-04 does not list); keys_sorted (key map ascending, "
+                "strictly for distinct amounts, independent of Go's map iteration order); ok_iff_200 / body_of_outcome / ok_tree_shape / element_shapes (a request that "
+                "reaches a handler and is not a cache hit is answered 200 iff applyOp succeeds, 400 iff it is refused; the body is the rendering of the handler's "
+                "response struct with exactly the NUT field names, or of the error passed to writeErr); refused_iff_400 ({detail, code} with the mapped code whenever "
+                "that code is not 0); code_of_cause (every error variable that expresses a cause of the NUT error table carries the table's code; the handlers pass "
+                "non-internal errors through unchanged: mapErr_passthrough); internal_generic (codes 1/2 are replaced by ONE constant body independent of the internal "
+                "message, per handler; meltTokens has its own constant for Lightning errors; swapRequest/meltQuoteRequest test only the DB code — latent, stated); "
+                "no_collision (for all strings: keys of cached POSTs contain '/', `{id}` segments and ACTIVE_KEYSET do not); cache_hit_iff (served from the cache iff the "
+                "map holds method++url++body; then the stored bytes, 200, mint session untouched, an expired entry served once more and dropped); cache_provenance + "
+                "cache_exact (over every history from a fresh server: a NUT-19 entry exists only because an earlier request with the identical key was EXECUTED, answered "
+                "200 on /v1/swap or /v1/mint/bolt11, and holds that response's bytes; hence hit iff such a request exists and its entry is retained); key_eq_iff (identical "
+                "key = identical (method, URL, body) when the URLs have equal length, e.g. no query string); replay_identical (within TTL, over ANY intermediate history "
+                "without restart: identical bytes, nothing executed); stored_entry (TTL 300 s, body < 2 MB, map size <= 10000 at that moment; the map can hold limit+1); "
+                "beyond_retention_executes (key absent => the operation runs again on the current session: inputs spent / quote issued). "
+                "FALSE on the code as it is, each with a decide-checked witness, the exact partial theorem, and a reproduction against the real handler on every run: "
+                "refused_shape_full (a non-cashu error — MintTokens' failing 'restore previous state' write — is rendered {}), internal_generic_full (a failing quote "
+                "lookup is answered 'quote does not exist' 20009), code_of_cause_full (the same secret with another witness, or with a dleq object, is refused by the "
+                "storage key: 10000 instead of 11007), cache_exact_full (the key is a concatenation without separators: POST /v1/swap?x{A} with body `null` is served "
+                "the response of POST /v1/swap?x with body `{A}null`).",
+        "note": "Not modelled: /v1/ws (websocket upgrade), HTTP headers other than the request's Content-Type, percent-decoding of paths (the request carries the "
+                "decoded segments and URL.String() side by side; the harness takes both from net/http), the detail TEXT of generated messages (classes: bad-json, "
+                "invalid-type, bad-C-hex, …; literal for every constant of the source), concurrency (Cache.Get deletes under a read lock). The NUT error table in "
+                "Spec/NutWire.lean was written from the NUT documents offline (error_codes.md as of NUT-20); codes the mint uses outside it are listed in "
+                "codes_outside_table (11003, 10004; 20009 has another meaning in the table). The 30 s cleanup loop of MintServer.Start is modelled (tick) and its "
+                "DeleteExpired half is exercised on the real Cache object; its ACTIVE_KEYSET invalidation runs only inside Start (a listening server) and is tied by source text only.",
+        "assumptions": COMMON_ASSUME + [
+            "a request is given as (method, decoded path segments, URL.String(), Content-Type, body bytes, outcome class of encoding/json on the body, symbolic content of a "
+            "decodable body); net/http, net/url, gorilla/mux's regexp matching and encoding/json's scanner are not re-proved: the harness takes segments and URL from net/http "
+            "and classifies bodies with encoding/json itself plus its own schema walker",
+            "ReqWF: no segment of strings.Split(path, \"/\") contains '/', and URL.String() of a routed request contains '/' (monitored on every request)",
+            "time is an integer number of nanoseconds that does not run backwards (timeForward) in the retention theorems; time.Now().After is strict",
+            "symbolic values as in Model.Mint (ids, invoices, points, times are identities); the byte-identity claims are about the rendered symbolic text; real byte identity "
+            "of replays is checked by the stream",
+        ],
+    },
     "C10": {
         "claimed": True,
         "title": "Blind signatures and DLEQ proofs are algebraically correct and tamper-evident",
-        "lean": ["Gonuts.Props.C10"],
-        "streams": ["bdhke"],
+        "lean": ["Gonuts.Props.C10", "Gonuts.Tie.Spec"],
+        "streams": ["bdhke", "bdhke-spec"],
         "level": "proof",
         "technique": "Lean 4 theorems (Mathlib linear algebra) about blind/sign/unblind/verify/GenerateDLEQ/VerifyDLEQ/VerifyProofDLEQ "
                      "over an ABSTRACT module G over ZMod n (all primes n, all modules, arbitrary hash function) + a monitor stream that "
@@ -91,4 +161,155 @@ PROPS = {
             "additionally feeds the real verifiers with proofs made by a NUT-12 re-implementation of the prover at chosen edge nonces (1, 2, n-1, n-2, small, reduced)",
         ],
     },
+    "C12": {
+        "claimed": True,
+        "title": "P2PK locks: spendable only with the required signatures (NUT-11)",
+        "lean": ["Gonuts.Props.C12", "Gonuts.Tie.Spend"],
+        "streams": ["p2pk", "spendmint", "spendwallet"],
+        "level": "proof",
+        "technique": "Lean 4 theorems over Model.Spend (line-by-line model of nut11.go and of the SIG_ALL code in mint.go; Schnorr validity, key parsing and the clock are parameters) against the declarative Spec.Spendable; pinned function bodies + skeleton ties; differential correspondence and a model-free NUT-11 evaluator on real btcec keys/signatures",
+        "design_ref": "DESIGN.md §4.3, §5 C12",
+        "text": "For ALL inputs (unbounded lists, any Schnorr-validity relation, key parser and clock value) the Lean model of the repaired code satisfies: HasValidSignatures accepts only if n signatures verify under n DISTINCT positions of the key list (sound; complete when a signature verifies under at most one listed key; exact for the refund threshold 1); VerifyP2PKLockedProof = ok implies — and under the same hypothesis is equivalent to — the declarative NUT-11 statement Spec.spendableP2PK (tag lookup 'last wins', well-formedness as ∀-clauses, threshold as ∃ of a sublist of signatures paired with a sub-permutation of keys, locktime/refund rule); malformed tag lists are rejected whatever the witness; a SIG_ALL input at ANY position makes ProofsSigAll true, a successful swap then has every input NUT-10 + SIG_ALL with one shared key list and threshold and every output signed by that many distinct key positions over its decoded B_, and the melt is refused; the witnesses written by AddSignatureToInputs/Outputs are accepted under the stated entitlement. The model is tied to the source by pinned go/printer bodies of the 13 mirrored functions, constants, error table and call skeletons, and by the stream p2pk (exhaustive product of the quantifier x 20 witness shapes with real btcec keys/signatures, corner cases, seeded random, SIG_ALL input lists up to length 5 x output shapes, helpers) with a model-free NUT-11 evaluator (maximum bipartite matching instead of the greedy loop).",
+        "note": 'Defects F6 (last key recounted) and F7 (ProofsSigAll false after a plain input) were reproduced by the monitors on the unchanged code (findings/F6.json, F7.json), repaired in /repo (b480424, e0978fe) and are re-run as regressions. Observations that are not violations of the property as stated: (1) distinctness is over key POSITIONS: a lock that lists one key twice, or a key and its negation (same BIP-340 x-only key), gives that signer two votes — both model and NUT evaluator follow the code here; for duplicate-free key lists the theorem hasValidSignatures_distinct_keys gives n different keys; (2) the SIG_ALL output check authorises every key of the `pubkeys` tag even when `n_sigs` is absent (nut11.PublicKeys), whereas the input check then authorises only the lock key; (3) IsSigAll looks for any tag equal to ["sigflag","SIG_ALL"] while ParseP2PKTags takes the last sigflag tag of length >= 2. Mint.Swap/MeltTokens are additionally run for real (stream spendmint: LoadMint on SQLite + the FakeBackend of the repository, proofs issued by the mint itself for NUT-10 secrets, the locked proof at every position) against Model.Spend.swapSpendCheck/meltSpendCheck and the SIG_ALL evaluator; run against a copy of the unrepaired code that stream reports F6 and F7 at the Mint level (swap with unsigned outputs and melt of [plain,…,SIG_ALL] accepted).',
+        "assumptions": COMMON_ASSUME + [
+            "signatures, keys and digests are symbolic ids; BIP-340 verification is the parameter `valid` (the streams instantiate it with real btcec signatures and cross-check the harness's by-construction table against btcec)",
+            "the JSON decoding of secrets and witnesses (encoding/json, nut10.DeserializeSecret) is outside the model: the model starts from the decoded structures",
+            "time.Now() cannot be controlled in the real code: locktimes in the streams lie 10^6 s in the past or future",
+        ],
+    },
+    "C13": {
+        "claimed": True,
+        "title": "HTLC locks: spendable only with the preimage and required signatures (NUT-14)",
+        "lean": ["Gonuts.Props.C13", "Gonuts.Tie.Spend"],
+        "streams": ["htlc", "spendmint", "spendwallet"],
+        "level": "proof",
+        "technique": "Lean 4 theorems over Model.Spend (line-by-line model of nut14.go and the HTLC branch of verifyBlindedMessages; SHA-256 of the preimage, Schnorr validity and the clock are parameters) against the declarative Spec.Spendable; pinned function bodies; differential correspondence and a model-free NUT-14 evaluator on real keys/signatures/preimages",
+        "design_ref": "DESIGN.md §4.3, §5 C13",
+        "text": 'For ALL inputs the Lean model of the repaired code satisfies: VerifyHTLCProof = ok implies — and, when a signature verifies under at most one listed key, is equivalent to — the declarative NUT-14 statement Spec.spendableHTLC (before the locktime: the hex-decoded preimage hashes to the 64-character lock value and, if n_sigs>0, n_sigs distinct positions of pubkeys signed with no repeated signature string; after it only the refund rule); a non-hex or wrong preimage and a lock value that is not 64 characters are rejections; with a SIG_ALL HTLC first input a successful swap has every output carrying the preimage and the signatures; the witnesses written by AddWitnessHTLC (inputs) and AddWitnessHTLCToOutputs (outputs) are accepted whenever the helper succeeds, the preimage is right and the key is listed. Stream htlc: exhaustive product hash x n_sigs x pubkeys x locktime x refund x sigflag x (7 preimage + 14 signature shapes) with real signatures, SIG_ALL output shapes, helpers end to end, model-free NUT-14 evaluator.',
+        "note": "Defect F8 (AddWitnessHTLCToOutputs signed the hex text of B_) and the HTLC face of F6 were reproduced on the unchanged code (findings/F8.json, F6-htlc.json), repaired (27d7371, b480424) and are re-run as regressions. Observations: an HTLC with a `pubkeys` tag but no `n_sigs` needs no signature (the code keys the signature check on n_sigs>0, as the property statement does); SIG_ALL + HTLC without pubkeys can never pass the output check (threshold 1 over an empty key list) — safe; the SIG_ALL consistency check compares key lists and thresholds but not the hash of different HTLC inputs (outputs are checked against the FIRST input's hash). wallet.ReceiveHTLC and wallet.Receive are executed end to end by stream spendwallet (two real wallets, real mint over in-process HTTP): on the unrepaired code that stream reports F8 as a failed ReceiveHTLC of a SIG_ALL HTLC token.",
+        "assumptions": COMMON_ASSUME + [
+            "signatures, keys, digests are symbolic ids; `valid` and `sha256hex` are parameters (instantiated with real btcec signatures and crypto/sha256 by the stream)",
+            "the JSON decoding of secrets and witnesses is outside the model",
+            "the wallet flows (stream spendwallet) are monitor-only: a fixed table of lock configurations with the outcome NUT-11/14 prescribe, not a model comparison",
+        ],
+    },
+    "C11": {
+        "claimed": True,
+        "title": "Derivations match the Cashu spec: hash-to-curve, keyset id, NUT-13 secrets",
+        "lean": ["Gonuts.Props.C11", "Gonuts.Tie.Spec"],
+        "streams": ["deriv"],
+        "level": "proof",
+        "technique": "independent executable reference implementation in Lean 4 (Gonuts.Spec.*: SHA-256/512, HMAC, secp256k1, BIP32, "
+                     "hash_to_curve, keyset id, NUT-13, mint keysets) written from FIPS 180-4 / RFC 2104 / SEC 1-2 / BIP32 / NUT-00/02/13; "
+                     "Lean theorems about that specification; facts extracted from the Go glue proved equal to the constants the "
+                     "specification uses; differential stream real Go vs compiled Lean reference vs a third math/big implementation",
+        "design_ref": "DESIGN.md §5 C11, §4.6",
+        "text": "Spec-side theorems are proved (what a returned hash_to_curve point satisfies and that the first lifting counter wins, "
+                "counter = 4 bytes little endian and injective, keyset id invariant under every permutation of a key set with distinct "
+                "amounts and of shape \"00\"+14 hex, NUT-13 indices never wrap and secret/blinding factor are children 0/1 of "
+                "m/129372'/0'/id'/c', BIP32 index ranges and HMAC inputs, hash output lengths, 60 mint keys at m/0'/0'/idx'/j' with "
+                "amount 2^j). 'Go = spec for every input' is NOT proved - the Go functions are calls into dcrec/secp256k1, "
+                "btcutil/hdkeychain and crypto/sha256; that link is the static tie of the glue (Gonuts.Tie.Spec) plus the bit-for-bit "
+                "differential stream 'deriv'. The property is therefore decided at PARTIAL strength.",
+        "note": "strength: partial (for-all link Go = spec is correspondence, bounded by the generators of stream 'deriv'; "
+                "spec-side well-definedness is proved)",
+        "assumptions": COMMON_ASSUME + [
+            "the reference implementation Gonuts.Spec.* is a faithful reading of FIPS 180-4, RFC 2104, SEC 1/2, BIP32 and NUT-00/02/13; "
+            "it reproduces every published test vector of those documents at driver start-up (spec.selftest)",
+            "the driver runs scalar multiplication through a Jacobian/windowed fast path that is cross-checked against the affine "
+            "definition on edge and pseudo-random scalars at start-up and on random inputs in the stream, not proved equal to it",
+            "hdkeychain.HardenedKeyStart = 2^31 and the behaviour of the btcec/hdkeychain/sha256 libraries are outside /repo and are "
+            "covered only by the differential stream",
+        ],
+    },
+    "C14": {
+        "claimed": True,
+        "title": "Tokens survive serialisation exactly; decoding arbitrary text never crashes",
+        "lean": ["Gonuts.Props.C14", "Gonuts.Tie.Token"],
+        "streams": ["token", "token-fuzz"],
+        "level": "proof",
+        "technique": "Lean 4 theorems over Model.Token (abstract syntax of cashu.Proof/TokenV3/TokenV4, NewTokenV3/V4 incl. the Go map grouping with the iteration order as a parameter, accessors, executable encoding/hex and encoding/base64 with proved decode(encode)=id, the byte-level string front end of DecodeToken with Go panics as explicit outcomes) + differential correspondence of every step with the real code + model-free round-trip and no-panic monitors",
+        "design_ref": "DESIGN.md §5 C14, §4.4, §6 F9",
+        "text": "Proved in Lean for ALL inputs of the model (unbounded proof lists, every String, every UInt64): v3_roundtrip (NewTokenV3 -> Serialize -> DecodeToken gives back mint, unit, and exactly the proofs in order, DLEQ complete iff requested), v4_roundtrip (lower-case hex ids/C/DLEQ, r non-empty: NewTokenV4 succeeds and the decoded proofs are exactly the input proofs, keyset by keyset in the map-iteration order, a permutation of the input with the order inside each keyset preserved; every field equal) and v4_roundtrip_anycase (any accepted input: hex fields come back as EncodeToString(DecodeString x), i.e. A-F lowered), newV4_rejects/accepts/first_error (what NewTokenV4 refuses and with which error), amount_eq_sum (both formats, wrapping identically), decode_total / decode_total_bytes (for EVERY string / byte sequence and EVERY behaviour of the JSON/CBOR libraries DecodeToken returns an error or a token on which Mint and Serialize do not panic; Proofs and Amount are total). wire_lossless / wire_injective / v3_roundtrip_closed / v4_roundtrip_closed: json.Marshal(TokenV3) and cbor.Marshal(TokenV4) are modelled as executable Lean functions (Model.TokenWire: struct tags and omitempty tied to the source, Go's JSON escaping, CBOR definite-length maps), a parser for exactly that canonical form is proved to read every token back (all strings, all amounts; CBOR lengths < 2^64), so the encodings are injective and the round trips hold with no hypothesis about the libraries for the codec made of these functions. encoding/hex and encoding/base64 are executable Lean functions with decode(encode b)=b proved; the byte-level string front end (tokenstr[:6] on bytes, prefix compare, URL then RawURL base64 with Go's error offsets and skipped CR/LF) is modelled exactly.",
+        "note": "The real decoders encoding/json and fxamacker/cbor are NOT modelled in general (abstract Codec): the general round-trip theorems assume Unmarshal(Marshal t)=t for the token at hand; the closed theorems use the modelled marshallers (compared byte for byte with the real Serialize on every generated token) and canonical parsers (compared with the real Unmarshal: the parser reads every real payload back to the token the real decoder yields, and on ~4k fuzzed payloads per quick run that it accepts the real decoder returns the identical token). What remains an assumption is that the real Unmarshal agrees with the canonical parser on Marshal output beyond the generated tokens; that the libraries do not panic on hostile payloads is fuzzed (type-directed wrong-shaped JSON/CBOR, truncations, mutations), not proved. V4 does not preserve upper-case hex literally and the group order is unspecified (Go map iteration): both are part of the theorem statements. Defect F9 (panic on inputs < 6 bytes; Mint() panic on a decoded V3 token without entries) was found by these streams on the unchanged code, proved as decode_total_old_false / decodeOld_panic_iff, and fixed in /repo by fix: commit 10453c5; the model, the ties (conds_V3/V4 mention the length check) and the regression family F9-regression follow the fixed code.",
+        "assumptions": COMMON_ASSUME + [
+            "encoding/json and fxamacker/cbor are abstract functions (Codec) in the model: decode_total holds for EVERY codec (whatever the libraries return, the token code does not panic; that the libraries themselves do not panic is fuzzed, not proved); the round-trip theorems assume dec(enc t)=some t for the token at hand, which the stream checks on every generated token with the real libraries",
+            "proof fields are Lean Strings (valid Unicode); Go strings that are not valid UTF-8 are outside the property's domain (the stream records what happens to them: JSON replaces the bytes, CBOR refuses to decode)",
+        ],
+    },
 }
+
+MINT_ASSUME = COMMON_ASSUME + [
+    "cryptography is symbolic in Model.Mint: a proof's C is the term sig(keyset,amount,secret) exactly when it equals k_{keyset,amount}·hash_to_curve(secret); soundness of that view under the joint injectivity hypothesis SigInjective is Props.C04.C04_symbolic_sound; unforgeability itself is a cryptographic assumption, not a theorem",
+    "SQLite semantics encoded in MintEff.execDb (PRIMARY KEY / UNIQUE violations fail the statement and roll the transaction back, UPDATE of a missing row is an error, uint64 >= 2^63 rejected by database/sql, SUM overflow) are modelled, tied to the SQL text by Tie.Mint.sqlText / migrations, and validated against the real SQLite by stream mint-seq",
+    "the Lightning backend is an oracle: every theorem holds for every script of answers",
+    "sequential theorems are about non-overlapping requests without storage faults (NoFault); the effect-level theorems (spent_forever_*, spent_once_effect, …) hold for every interleaving, crash prefix and fault",
+]
+
+MINT_NOTE = ("Trusted: Lean kernel; the hand-written model Model.Mint (programs written statement by statement after mint/mint.go as of the fix: commits "
+             "F1,F2,F3,F4,F11,F14,F15), tied to /repo by Tie.Mint (call skeletons of 19 functions, SQL text, schema, error rows, payment-call argument "
+             "expressions) and by the differential stream mint-seq (outcome + storage-call trace + Lightning-call ledger of every operation compared "
+             "with the real mint on real SQLite and real secp256k1); model-free monitors in streams mint-seq / mint-mon check the property itself on the "
+             "implementation. NOT covered by the model: data races below storage-call granularity, SQLite durability, real LND/CLN behaviour.")
+
+PROPS["C01"] = {
+    "claimed": True,
+    "title": "No double spend: an ecash proof is redeemed at most once, ever",
+    "lean": ["Gonuts.Props.C01", "Gonuts.Tie.Mint"],
+    "streams": ["mint-seq", "mint-mon", "mint-sched"],
+    "thorough_shards": {"mint-seq": 4, "mint-mon": 4, "mint-sched": 8},
+    "quick_shards": {"mint-sched": 3},
+    "level": "proof",
+    "technique": "Lean 4 invariants over an executable small-step model of the mint (effect-level for all schedules/crashes/faults; by induction over sequential histories) + differential correspondence and model-free double-spend monitors against the real mint",
+    "design_ref": "DESIGN.md §4.1, §5 C01",
+    "text": "PROVED for the model: (all programs, all interleavings, crash prefixes, injected storage faults) a row of the spent table is never removed or altered and the table never holds two rows for one secret (spent_forever_effect/_crash/_history, spent_once_effect); a spent secret is reported SPENT with its witness (spent_reported). (Sequential fault-free histories, by induction over the op list) swap and melt refuse a request as soon as one input secret is spent or locked by an in-flight melt, whatever its other fields and position, and then change no table (swap_rejects_used, melt_rejects_used); an accepted swap took pairwise distinct, previously unused secrets and all of them are spent afterwards (swap_ok_consumes); once consumed a secret is refused after ANY later history incl. rotations/restarts (consumed_rejected_forever); no secret is both locked and spent (locked_not_spent). (Every event sequence of arrivals, single-call scheduler steps, injected storage errors and process kills — Model/MintConc.lean, no bound on threads or steps) spent rows persist, the spent and pending tables never hold a secret twice, and a request arriving afterwards with a spent secret is refused (spent_forever_schedule, spent_once_schedule, locked_once_schedule, used_refused_after_anything). The request-level concurrent half (of two OVERLAPPING requests at most one is accepted) is FALSE of the code: schedules_full_false with kernel-checked witnesses w1 (swap||melt) and w2 (melt||melt), reproduced against the real mint by stream mint-sched and recorded as known findings C01/sched/*.",
+    "note": MINT_NOTE + " Stream mint-sched runs two/three real requests as scheduled goroutines over one real mint (Gate in the storage proxy and the scripted backend: one storage/Lightning call per step; quick: every schedule with <= 1 preemption per scenario + random ones, thorough: <= 3 preemptions (2 for three threads)), the Lean model executes the same schedule step by step (labels, outcomes, later tables compared), and a model-free monitor counts the operations that accepted each contested secret. Scenario-level signatures: a double acceptance in a scenario not listed in known_findings.json is a VIOLATION.",
+    "assumptions": MINT_ASSUME,
+}
+
+def mint_prop(pid, title, lean, text, extra_note="", streams=("mint-seq", "mint-mon"), design="DESIGN.md §4.1, §5 ", shards=None, qshards=None):
+    PROPS[pid] = {
+        "claimed": True,
+        "title": title,
+        "lean": lean + ["Gonuts.Tie.Mint"],
+        "streams": list(streams),
+        "thorough_shards": dict({"mint-seq": 4, "mint-mon": 4}, **(shards or {})),
+        "quick_shards": dict(qshards or {}),
+        "level": "proof",
+        "technique": "Lean 4 theorems over an executable small-step model of the mint (refinement of each operation to closed case tables, invariants by induction over sequential histories, effect-level invariants for all schedules/crashes/faults) + differential correspondence and model-free property monitors against the real mint",
+        "design_ref": design + pid,
+        "text": text,
+        "note": MINT_NOTE + (" " + extra_note if extra_note else ""),
+        "assumptions": MINT_ASSUME,
+    }
+
+mint_prop("C02", "No inflation: outstanding ecash plus Lightning outflow never exceeds inflow", ["Gonuts.Props.C02"],
+    "PROVED for the model, for every input (UInt64 semantics incl. Go's unchecked wrap-around), every fee configuration and every Lightning script: swap outputs + input fee <= inputs in N with NO size hypothesis (swap_out_le_in_minus_fee: the unchecked input sum can only wrap down); signatures are for exactly the requested output amounts on the active keyset (signatures_match_outputs); mint outputs <= quote amount and the quote was PAID (mint_out_le_quote); an accepted melt holds >= amount + fee reserve + input fees (melt_burns_amount_reserve_fees); a melt makes at most one payment attempt, for the quote's invoice and msat amount, with the quote's FEE RESERVE as fee limit (fee_limit_eq_reserve, F1); 1000*quoted amount >= msat to be paid, full and MPP (meltquote_covers_msat, F2); fee = ceil(sum ppk/1000) per input keyset (C09.fees_per_keyset, C18.transactionFees_eq_ceil).",
+    "The history-level ledger inequality (issued - spent - locked + lnOut + credit <= lnIn) is NOT a Lean theorem yet: it is evaluated on the implementation after every operation by the model-free ledger monitor (msat arithmetic, scripted backend charging the whole fee limit); the per-operation bounds above are its inductive steps.")
+mint_prop("C03", "A mint quote is issued at most once per payment, never before it is paid", ["Gonuts.Props.C03"],
+    "PROVED for the model (mint after F11), sequential histories: issuance only on a quote that is PAID or UNPAID-with-settled-invoice (never_before_paid); for at most the quoted amount (amount_le_quote); for a NUT-20 locked quote only with a signature by that key over exactly (quote id, the submitted B_ in order) — no/garbage signature, other key, other quote, reordered/added/removed outputs refused (quoteSigOk_iff, nut20_required); after success the quote is ISSUED (issued_after_success), an ISSUED quote refuses with 20002 without any change or backend call (issued_refuses), and it stays ISSUED through any list of further mint requests, polls with any answer, watcher notifications, new quotes and swaps (issued_stays_issued, at_most_once; induction over the unbounded event list); the watcher writes PAID only over UNPAID (watcher_cases). (Every event sequence of arrivals, single-call scheduler steps, faults and kills) a blinded message is signed at most once, stored signatures and quote terms are never lost (signed_once_schedule, signature_kept_schedule, quote_terms_fixed_schedule). The concurrent half (however requests, polls and the notification interleave) is FALSE of the code: schedules_full_false with kernel-checked witnesses w3 (mint||mint: 16 issued for 8 paid) and w3n (watcher read->write window left by F11), reproduced against the real mint by stream mint-sched, known findings C03/sched/*.",
+    "Stream mint-sched: mint||mint (valid and invalid second request), mint||watcher notification, mint||poll||notification, internal melt||mint as scheduled goroutines over the real mint, model stepped in lockstep; the issuance-count monitor is evaluated when all threads have returned and after one more sequential mint request.",
+    streams=("mint-seq", "mint-mon", "mint-sched"), shards={"mint-sched": 8}, qshards={"mint-sched": 3})
+mint_prop("C04", "Only genuine mint signatures are honoured, at exactly their signed amount", ["Gonuts.Props.C04", "Gonuts.Props.C04Mint"],
+    "PROVED: (algebra, Props.C04, all primes n, all ZMod n-modules) the gate accepts iff C = key(id,amount)·H(secret) with the stated side conditions; every single-field mutation (amount, id, secret, C) of a genuine proof is rejected under key-injectivity / H-injectivity hypotheses; honest unblinded signatures are accepted; the symbolic view used by Model.Mint is sound under SigInjective (C04_symbolic_sound, with the counterexample not_jointly_injective showing the joint hypothesis is needed). (protocol, Props.C04Mint) gate_iff for the model's verifyProofs loop body in source order; swap and melt only accept inputs that pass it (swap_inputs_genuine, melt_inputs_genuine); mutation_amount/_keyset/_secret/_C, too_long_rejected, honest_accepted.",
+    "Unforgeability (no genuine term without a blind signature) is a cryptographic assumption. Stream bdhke checks the gate's accept/reject on real secp256k1 for every single-field mutation.",
+    streams=("mint-seq", "mint-mon", "bdhke"))
+mint_prop("C05", "Melt inputs follow the Lightning outcome: spent iff paid, released iff failed", ["Gonuts.Props.C05"],
+    "PROVED for the model, every melt that passed validation, every pay answer a0, every status answer a1 and every LIST of later poll answers (no length bound): the final quote state is the closed table meltOutcome a0 a1 / pollOutcome a (melt_table, poll_table: PAID iff a definitive success, UNPAID iff a definitive failure or not-found on the in-melt check, PENDING on every ambiguous answer); the inputs are SPENT with the preimage (paid), still LOCKED (pending) or RELEASED (unpaid), nothing else (melt_follows_outcome, tail_inputs, melt_internal); a poll adopts succ/failed in the same call and changes nothing otherwise (poll_follows_outcome, poll_inputs); the verdict after any list of polls is decided by the first definitive answer (resolve_first_definitive, resolve_all_ambiguous, resolve_final).")
+mint_prop("C06", "Rejected or malformed requests change nothing and never crash a handler", ["Gonuts.Props.C06"],
+    "PROVED for the model, every request content: a refused swap leaves tables and Lightning state untouched (swap_reject_noop); a refused melt likewise, except the failed backend lookup of an internal settlement after which spent is unchanged and no input is locked (melt_reject_noop, F15); a refused MintTokens leaves the tables exactly as its leading quote-state check left them — which changes at most that quote UNPAID->PAID when the invoice is settled (mint_reject_noop with quote ids unique in every reachable state: mintQ_nodup_db; quoteState_only_unpaid_to_paid; F4); refused mint-/melt-quote requests and restores write nothing.",
+    "No-panic is NOT a theorem: the model has no panic outcome after F3; panics of the Go are caught by the recover()-based monitors of mint-seq / mint-mon and of stream wire-malformed (about 5,300 structurally and byte-level mutated HTTP requests per run over 5 mint states: no panic, no state change on refusal, predicted decode class and detail text).",
+    streams=("mint-seq", "mint-mon", "wire-malformed"))
+mint_prop("C07", "Mint crash consistency: a crash at any point never inflates or strands value", ["Gonuts.Props.C07", "Gonuts.Props.C01"],
+    "PROVED for the model, for EVERY event sequence (any operation, any interruption point, any number of kills, injected storage errors and requests in flight, any inputs): durability — a SPENT row, a stored signature, a keyset's index and fee, a quote's terms are never lost (durable_spent, durable_signature, durable_keyset, durable_mint_quote, durable_melt_quote); a kill changes no table and the restarted cache is a function of storage (kill_keeps_tables, restart_cache_from_storage); the unique keys of the spent/pending/signature tables hold at every point (unique_keys_always); a spent secret is refused by every later request (spent_refused_after_restart). FALSE of the code, with kernel-checked witnesses: atomicity (swap_atomic_full_false: killed between SaveProofs and SaveBlindSignatures the inputs are SPENT and nothing is restorable, swap_stranded_for_good; mint_atomic_full_false), safety (melt_safety_full_false: killed between RemovePendingProofs and SaveProofs the invoice is paid and the inputs spendable), start-up (rotate_restart_full_false: no active keyset, LoadMint panics). The complete interruption tables of the canonical swap/mint/melt/rotation (swap_table, mint_table, melt_table, rotate_table) are decide-checked TESTS of the model, compared point by point with the real mint by stream mint-crash.",
+    "Stream mint-crash: every listed operation x every interruption point k x {kill+restart, storage error at call k then restart} against the real mint on real SQLite (goroutine parked for ever at the Gate = process kill; LoadMint on the same directory), followed by state check, poll, retry, restore and re-spend; the model executes the same prefix, kill and follow-up; verdicts (unsafe / lost / stranded / ok) are computed model-free from storage and the backend's ledger. 52 interruption points violate the property on the unchanged tree (known findings C07/crash/*, C07/fault/*, one signature per (mode, operation, call, verdict)); any other point, or another verdict at a listed point, is a VIOLATION. The model's kill drops continuations between calls; torn writes inside one SQLite transaction and fsync behaviour are NOT modelled (SQLite's own atomicity is trusted).",
+    streams=("mint-crash", "mint-sched"), shards={"mint-sched": 8, "mint-crash": 4}, qshards={"mint-sched": 3, "mint-crash": 3})
+mint_prop("C09", "Keyset lifecycle: deterministic keys, one active keyset, old ecash stays valid", ["Gonuts.Props.C09"],
+    "PROVED for the model (keyset = derivation index): stored rows keep index and fee through every effect/history (keyset_row_stable*); a successful rotation deactivates the old keyset, appends index+1 with the requested fee and leaves exactly one active keyset (rotate_ok, rotate_one_active); signatures only on the active keyset, unknown id -> 12001, inactive -> 12002 (sign_only_active); genuine proofs of every held keyset pass the gate (old_keysets_accepted) and are charged their own keyset's fee (fees_per_keyset, memFee_known); a restart rebuilds the cache from the stored rows (restart_cache).",
+    "That keyset id and the 60 keys are the NUT-02 function of (seed, index) is checked bit for bit against the Lean reference Spec.MintKeys by stream deriv (C11); the C09 monitors in mint-seq/mint-mon observe ids, keys, fees and the active flag across rotations and restarts of the real mint.",
+    streams=("mint-seq", "mint-mon", "deriv"))
+mint_prop("C15", "State check and restore tell the truth about everything the mint ever did", ["Gonuts.Props.C15"],
+    "PROVED for the model: the state-check answer has the request's length and order and entry i is stateOf over the WHOLE tables after re-polling (checkstate_truth, stateOf_meaning: SPENT with stored witness iff in spent, else PENDING iff locked, else UNSPENT incl. every unknown/malformed Y); restore returns exactly the requested messages that were signed, in order, with the stored signature, and writes nothing (restore_truth, restore_only_signed, restore_all_signed); every issuance path stores what it returns and every spend path stores its inputs (swap_stores, mint_stores; melt paths in C05); stored signatures and spent rows are never altered by any effect of any program (signature_forever*, C01.spent_forever_*).")
+mint_prop("C16", "Reported balances are exact and configured limits are enforced", ["Gonuts.Props.C16"],
+    "PROVED for the model: the per-keyset views are exact sums over ALL stored signatures / spent proofs, one row per keyset with rows, failing iff a sum reaches 2^63 (groupSum_exact); the balance query reports those, their UInt64 difference, and nut04.disabled iff MaxBalance>0 and balance>=MaxBalance (balance_report); a mint quote is created only if amount<=MaxAmount (when set) and balance+amount<=MaxBalance in the Go's uint64 arithmetic, with amount<2^63 so that the comparison is exact in N (mintquote_accept_only_if, balance_limit_exact); a melt quote only within the melt maximum (meltquote_accept_only_if).",
+    "Non-negativity of the balance (redeemed <= issued) follows from the ledger inequality, which is monitor-checked, not yet a theorem (see C02).")
